@@ -24,7 +24,8 @@ VERIF = os.path.dirname(os.path.dirname(os.path.abspath(__file__)))
 REPO = os.environ.get("VERIF_REPO", "/repo")
 SPEC = os.path.join(VERIF, "spec")
 HARNESS = os.path.join(VERIF, "harness")
-WORK = os.path.join(VERIF, ".work")
+WORK = os.environ.get("VERIF_WORK") or os.path.join(VERIF, ".work")   # seed runs use their own (bin/seedtest.py)
+EVID = os.environ.get("VERIF_EVIDENCE") or os.path.join(VERIF, "evidence")
 TLA_JAR = "/opt/veriftools/tla/tla2tools.jar"
 TLA_CP = TLA_JAR + ":/opt/veriftools/tla/CommunityModules-deps.jar"
 NCPU = os.cpu_count() or 4
@@ -368,12 +369,12 @@ class Ctx:
         if self.violations:
             ev["violation_details"] = self.violations[:10]
         if not self.replay:
-            os.makedirs(os.path.join(VERIF, "evidence"), exist_ok=True)
-            tmp = os.path.join(VERIF, "evidence", ".%s.json.tmp" % self.pid)
+            os.makedirs(EVID, exist_ok=True)
+            tmp = os.path.join(EVID, ".%s.json.tmp" % self.pid)
             with open(tmp, "w") as fh:
                 json.dump(ev, fh, indent=1, sort_keys=True, default=str)
                 fh.write("\n")
-            os.replace(tmp, os.path.join(VERIF, "evidence", "%s.json" % self.pid))
+            os.replace(tmp, os.path.join(EVID, "%s.json" % self.pid))
         for sig in sorted(self.known_hits):
             print("KNOWN-FINDING: property=%s %s %s" % (self.pid, sig, self.known_hits[sig]), flush=True)
         if self.violations:
@@ -393,7 +394,7 @@ class Ctx:
         return 0
 
     def save_replay(self, v):
-        d = os.path.join(VERIF, ".work", "replays")
+        d = os.path.join(WORK, "replays")
         os.makedirs(d, exist_ok=True)
         p = os.path.join(d, "%s_%s_%d.json" % (self.pid, re.sub(r"\W+", "_", v["signature"])[:60], int(time.time())))
         with open(p, "w") as fh:
